@@ -188,6 +188,36 @@ def run(seed=0, nchains=600):
             add("binary", nm, t.format(a="a", b="b"), {"a": s1, "b": s2})
     for names in name_sets():
         add("obj", ",".join(names), "vector.obj(" + ", ".join(f"{n}=a{i}" for i, n in enumerate(names)) + ")", {}, len(names))
+    # ---- Awkward records inside compiled code: the registered typer (awkward.py::_numba_typer_*) applied to the record type of an
+    # Awkward vector array with the given field names (+ an extra field) vs the Numba type of the equivalent object (no compilation)
+    try:
+        import awkward as ak
+        import numba
+        ak.numba.register_and_check()
+        V, NO = ex.vector, ex.NO
+
+        def tdesc(T, n):
+            systems = [t3.t1.SIGN[NO.numba_aztype(T).__name__]]
+            if isinstance(T, (NO.VectorObject3DType, NO.VectorObject4DType)):
+                systems.append(t3.t1.SIGN[NO.numba_ltype(T).__name__])
+            if isinstance(T, NO.VectorObject4DType):
+                systems.append(t3.t1.SIGN[NO.numba_ttype(T).__name__])
+            return {"kind": "vector", "cls": T.instance_class.__name__, "systems": systems, "coords": [["var", f"a{i}"] for i in range(n)]}
+        for names in name_sets():
+            try:
+                o = V.obj(**{n: 1.5 for n in names})
+            except Exception:
+                continue
+            try:
+                arr = V.Array(ak.Array([dict({n: 1.5 for n in names}, extra=1)]))
+                rv = ak._connect.numba.arrayview.RecordViewType(numba.typeof(arr))
+                got = tdesc(V.backends.awkward.behavior["__numba_typer__", arr.layout.parameter("__record__")](rv), len(names))
+            except Exception as e:
+                got = {"kind": "raise", "exc": "TypingError", "msg": f"{type(e).__name__}: {e}"[:200]}
+            recs.append({"fam": "obj", "name": "aktyper__" + ",".join(names), "text": "A[i]  # record of an Awkward vector array with fields " + ",".join(names),
+                         "srcs": [], "nb": got, "py": tdesc(numba.typeof(o), len(names))})
+    except ImportError:
+        pass
     # ---- chains of two or three calls
     rng = random.Random(seed * 7919 + 5)
     vec_un = ["unit", "neg", "scale", "rotateZ", "rotateX", "rotate_euler_zyx", "boostX_beta", "boostZ_gamma", "to_beta3", "rotate_nautical"]
